@@ -32,6 +32,20 @@ def generate(dst):
         t2 = t2.replace('target_os = "macos"', "sim_macos")
         changes[f] = {"cfg_lines_dropped": n_cfg, "macos_predicates_renamed": n_mac}
         open(os.path.join(ic, f), "w").write(t2)
+    # source files the tree under test has ADDED next to the emitters (helpers they import): copied the same way and
+    # declared in the generated mod.rs, so that a refactor that moves code into a new file does not stop the engine
+    known = set(COPIED) | {"common.rs", "internal.rs", "linuxapi.rs", "macosapi.rs", "winapi.rs", "mod.rs"}
+    extra = sorted(f for f in os.listdir(os.path.join(core.REPO, "src", "injector_core")) if f.endswith(".rs") and f not in known)
+    if extra:
+        modrs = os.path.join(ic, "mod.rs")
+        decl = ""
+        for f in extra:
+            t2 = open(os.path.join(core.REPO, "src", "injector_core", f)).read()
+            t2 = "\n".join(l for l in t2.split("\n") if not re.match(r'^#!\[cfg\(target_arch\s*=\s*"[a-z0-9_]+"\)\]\s*$', l)).replace('target_os = "macos"', "sim_macos")
+            open(os.path.join(ic, f), "w").write(t2)
+            decl += "pub(crate) mod %s;\n" % f[:-3]
+        open(modrs, "a").write(decl)
+        changes["extra_source_files_copied"] = extra
     # the real common.rs (PatchGuard, patch_function, ...) as a second, independent module
     rc = os.path.join(dst, "src", "realcore")
     for f in ("common.rs", "linuxapi.rs"):
